@@ -1,0 +1,21 @@
+//go:build verif
+
+package decoder
+
+import "context"
+
+// VerifPoison, when set by the /verif harness, fills a pooled context with junk as it goes back to
+// the pool.
+var VerifPoison bool
+
+type verifJunkKey struct{}
+
+func verifPoisonCtx(c *RuntimeContext) {
+	if !VerifPoison {
+		return
+	}
+	c.Buf = []byte("JUNK{[\"\x00")
+	c.Option.Flags = 0xff
+	c.Option.Context = context.WithValue(context.Background(), verifJunkKey{}, "junk")
+	c.Option.Path = &Path{}
+}
